@@ -456,6 +456,63 @@ theorem derive_enum_indefinite_wrapper_rejected (a : EAttr) (vars : Variants) (r
   simp [deriveDecode, decTy, enumDec, htag, tagCheck, hix, Dec.bind_run, Dec.array, Dec.container, Dec.majorOf, Dec.infoOf]
   rfl
 
+/-! ### re-framed input (indefinite-length containers, non-preferred heads)
+
+The property also quantifies over re-framings of the encoding.  Stated on wire trees (Wire.lean):
+any valid tree `w` whose data-model value is the documented value and which does not chunk its
+strings (the `String` / byte-string decoders reject chunked strings by design).  On the code as
+it is the statement is false (K8): the generated enum decoder insists on a *definite* two-element
+wrapper.  `derive_decode_reframed_partial` is the statement for the preferred framing (which is
+`derive_roundtrip` read through C08); the other framings (indefinite struct / variant / `Vec`
+containers, widened heads) are covered by the correspondence stream `derive-reframed` only. -/
+
+mutual
+def noChunks : WItem → Bool
+  | .bytesI _ => false
+  | .textI _ => false
+  | .array _ xs => noChunksAll xs
+  | .arrayI xs => noChunksAll xs
+  | .map _ kvs => noChunksAll kvs
+  | .mapI kvs => noChunksAll kvs
+  | .tag _ _ x => noChunks x
+  | _ => true
+def noChunksAll : List WItem → Bool
+  | [] => true
+  | x :: xs => noChunks x && noChunksAll xs
+end
+
+/-- the full-strength statement (false on the code as it is: K8). -/
+def derive_decode_reframed_statement : Prop :=
+  ∀ (t : FTy) (v : Derive.Val) (w : WItem) (rest : Bytes), accepted t = true → hasTy t v = true → noClash t v = true →
+    w.Valid → value w = specTy t v → noChunks w = true →
+    deriveDecode t (encW w ++ rest) = .ok (withDefaults t v) rest
+
+theorem derive_decode_reframed_partial (t : FTy) (v : Derive.Val) (rest : Bytes) (ha : accepted t = true)
+    (hv : hasTy t v = true) (hc : noClash t v = true) :
+    deriveDecode t (encW (prefTree (specTy t v)) ++ rest) = .ok (withDefaults t v) rest := by
+  have h1 := derive_roundtrip t v ha hv hc rest
+  have h2 := C08.derive_encode_spec t v ha hv
+  unfold specEncode encPref at h2
+  rw [← h2]; exact h1
+
+def k8Type : FTy := .enum {} [({ idx := 0, shape := .unit }, [])]
+def k8Wire : WItem := .arrayI [.uint .w0 0, .array .w0 []]
+
+/-- K8: `enum E { #[n(0)] A }`; the valid re-framing `9f 00 80 ff` of `82 00 80` has the same
+    data-model value but is rejected with a message error. -/
+theorem derive_decode_reframed_counterexample_K8 :
+    accepted k8Type = true ∧ hasTy k8Type (.enum 0 []) = true ∧ noClash k8Type (.enum 0 []) = true ∧
+    k8Wire.valid = true ∧ noChunks k8Wire = true ∧ encW k8Wire = [0x9f, 0x00, 0x80, 0xff] ∧
+    deriveDecode k8Type (encW k8Wire) = .err .message [0x00, 0x80, 0xff] := by
+  refine ⟨by rfl, by rfl, by rfl, by rfl, by rfl, by rfl, by rfl⟩
+
+theorem derive_decode_reframed_statement_false : ¬ derive_decode_reframed_statement := by
+  intro h
+  have := h k8Type (.enum 0 []) k8Wire [] (by rfl) (by rfl) (by rfl) (by rfl) (by rfl) (by rfl)
+  have e : deriveDecode k8Type (encW k8Wire ++ []) = .err .message [0x00, 0x80, 0xff] := by rfl
+  rw [e] at this
+  cases this
+
 /-! ### borrowing
 
 In the model a decoded string / byte-string leaf *is* the slice `readSlice` cut out of the input:
